@@ -1485,3 +1485,59 @@ func (in *Inst) goEvent(x *ssa.Go, st *State) {
 		}
 	}
 }
+
+// selectEvent: a select statement is an event named "select" for `assert before select: ..` clauses of the
+// function under contract (also when it sits in an inlined closure); argN is the channel of case N in source order.
+// A clause naming a case the statement does not have fails as that obligation.
+func (in *Inst) selectEvent(x *ssa.Select, st *State) {
+	if st.reach == "false" {
+		return
+	}
+	var cons []*Contract
+	if in.con != nil {
+		cons = append(cons, in.con)
+	}
+	if top := in.e.top; top != nil && top != in && top.con != nil && top.con != in.con {
+		cons = append(cons, top.con)
+	}
+	for _, con := range cons {
+		for i, ca := range con.Asserts {
+			if ca.Callee != "select" || ca.After || in.e.W.otherProp(ca.Clause.Prop) {
+				continue
+			}
+			env := in.newEnv(st)
+			env.atBlock = x.Block()
+			env.atIdx = instrIndex(x)
+			for k, s := range x.States {
+				func() {
+					defer func() { recover() }()
+					v := in.val(s.Chan, st)
+					if v.Ty == nil {
+						v.Ty = s.Chan.Type()
+					}
+					env.vars[fmt.Sprintf("arg%d", k)] = v
+				}()
+			}
+			t := func() (t string) {
+				defer func() {
+					if r := recover(); r != nil {
+						if u, ok := r.(unsupported); ok && strings.Contains(u.msg, "unknown name") {
+							in.e.note("clause `" + exprString(ca.Clause.Expr) + "` cannot be evaluated at a select statement: " + u.msg)
+							t = "false"
+							return
+						}
+						panic(r)
+					}
+				}()
+				return in.specBool(ca.Clause.Expr, env)
+			}()
+			site := "0"
+			if con != in.con {
+				site = "in:" + in.fn.Name()
+			}
+			o := in.e.oblige("assert", fmt.Sprintf("before:select#%s/%d", site, i), x.Pos(), st.reach, t)
+			o.Top = true
+			o.Prop = ca.Clause.Prop
+		}
+	}
+}
